@@ -34,7 +34,21 @@ HARMLESS = ["flag", "fmt", "ioutil", "log", "filepath", "sort", "strings", "tabw
 # the imports of the generated file that were unaliased before 869bb8a (finding F7, repaired) and the
 # predeclared identifiers the generated file uses (known finding)
 IMPORT_NAMES = ["os", "signal", "time", "context", "strconv", "syscall"]
-PREDECL_USED = ["make", "len", "append", "recover", "error", "nil", "true", "string", "bool", "int", "iota", "uint8", "int64", "false"]
+# EVERY predeclared identifier of Go (types, constants, zero value, builtin functions): a magefile may
+# legally redeclare any of them at package level; the generated main is compiled in the same package
+PREDECLARED = ["any", "bool", "byte", "comparable", "complex64", "complex128", "error", "float32", "float64", "int", "int8",
+               "int16", "int32", "int64", "rune", "string", "uint", "uint8", "uint16", "uint32", "uint64", "uintptr",
+               "true", "false", "iota", "nil",
+               "append", "cap", "clear", "close", "complex", "copy", "delete", "imag", "len", "make", "max", "min", "new",
+               "panic", "print", "println", "real", "recover"]
+# a few ordinary names (locals of the generated main, common helper names): never a problem
+ORDINARY = ["d", "err", "sigCh", "keys", "w", "targets", "main_", "usage", "run", "sh", "exit", "getContext"]
+# the predeclared identifiers the generated main of the tree at 5f65f03 uses: MEASURED with every declaration kind
+# (tools/notes/C06.md); redeclaring one of these is the known finding, any other identifier that stops building is new
+PREDECL_BASELINE = ["append", "bool", "error", "false", "int", "int64", "iota", "len", "make", "nil", "recover", "string",
+                    "true", "uint8"]
+# parameter types that LOOK like a supported type or like context.Context but are not
+LOOKALIKE_TYS = ["Duration", "Context", "conf.Duration", "conf.Context", "time.Month", "conf.Month"]
 
 WORDS = {
     "string": [("hello", "hello"), ("World", "World"), ("x y", "x y"), ("a:b", "a:b"), ("42", "42"), ("true", "true"),
@@ -129,7 +143,7 @@ def gen_params(rng, defect=None):
         pos = rng.randrange(1, len(groups) + 1)
         groups.insert(pos, grp("ctx", 1))
     if defect == "badparam":
-        sp = rng.choice(OTHER_TYS + ["...string"])
+        sp = rng.choice(LOOKALIKE_TYS) if rng.random() < 0.35 else rng.choice(OTHER_TYS + ["...string"])
         if sp == "...string":
             groups.append(grp({"other": sp}, 1))
         else:
@@ -205,7 +219,7 @@ def gen_package(rng, size=None, simple=False):
         taken.add(n.lower())
         return n
 
-    for n in ("default", "aliases", "local", "ctx", "main", "init", "probe", "mg", "alt"):
+    for n in ("default", "aliases", "local", "ctx", "main", "init", "probe", "mg", "alt", "conf", "duration", "context"):
         taken.add(n)
     fileof = lambda: rng.randrange(nfiles)
     # types
@@ -381,18 +395,27 @@ def gen_default_shape(rng, shape):
     return pkg
 
 
-def gen_clash(rng, cls):
+def gen_clash(rng, cls, ident=None, kind=None):
     """a simple package + one package-level identifier named like an import / a predeclared identifier
     of the generated file, or a generic namespace type"""
     pkg = gen_package(rng, size=rng.choice([1, 2, 3]), simple=True)
     if cls == "import-name-clash":
         pkg["helpers"].append({"kind": rng.choice(["func", "var", "const", "type"]), "name": rng.choice(IMPORT_NAMES), "file": 0})
     elif cls == "predeclared-shadowed":
-        n = rng.choice(PREDECL_USED)
-        kind = "func" if n in ("make", "len", "append", "recover") else ("type" if n in ("error", "string", "bool", "int", "uint8", "int64") else "const")
-        pkg["helpers"].append({"kind": kind, "name": n, "file": 0})
+        n = ident or rng.choice(PREDECLARED)
+        pkg["helpers"].append({"kind": kind or rng.choice(["func", "var", "const", "type"]), "name": n, "file": 0, "bare": True})
         for f in pkg["funcs"]:          # the redeclared identifier must not occur in the magefile's own signatures
             f["params"], f["res"] = [], []
+    elif cls == "lookalike":
+        # one exported function whose parameter type looks like a supported one
+        sp = ident or rng.choice(LOOKALIKE_TYS + ["dot:Duration", "dot:Month"])
+        nm = [x for x in FUNC_NAMES if x.lower() not in {f["name"].lower() for f in pkg["funcs"]}][0]
+        f = gen_func(rng, nm, None, None)
+        ty = {"other": sp[4:], "dot": True} if sp.startswith("dot:") else {"other": sp}
+        f["params"] = [{"names": ["p"], "ty": ty}] + ([{"names": ["q"], "ty": "string"}] if rng.random() < 0.5 else [])
+        f["res"] = rng.choice([[], [{"names": 0, "kind": "error", "spell": "error", "zero": "nil"}]])
+        f["file"], f["defect"] = 0, "lookalike"
+        pkg["funcs"].append(f)
     elif cls == "generic-namespace-type":
         pkg["types"].append({"name": "GenNS", "kind": "ns", "file": 0, "group": None, "tparams": True})
         f = gen_func(rng, "Build", ["GenNS", False, ""], None)
@@ -498,6 +521,12 @@ def render_package(pkg, pname):
         bodies[0].append("type local int\n")
     if need_ctx_alias:
         bodies[0].append("type Ctx = context.Context\n")
+    others = [g["ty"] for f in pkg["funcs"] for g in f["params"] if not isinstance(g["ty"], str)]
+    if any(t["other"] == "Duration" and not t.get("dot") for t in others):
+        bodies[0].append("type Duration uint8\n")
+    if any(t["other"] == "Context" for t in others):
+        bodies[0].append("type Context struct{}\n")
+    dot_files = {f["file"] for f in pkg["funcs"] for g in f["params"] if not isinstance(g["ty"], str) and g["ty"].get("dot")}
     done_groups = set()
     for t in pkg["types"]:
         under = ("%s" % t["of"]) if t["kind"] == "chain" else TYPE_UNDER[t["kind"]]
@@ -526,8 +555,8 @@ def render_package(pkg, pname):
             bodies[h["file"]].append(h["text"])
             continue
         text = {"func": "func %s() int { return 1 }\n", "var": "var %s = 3\n", "const": "const %s = 1\n", "type": "type %s struct{}\n"}[h["kind"]] % n
-        if h["kind"] == "func" and n == "make":
-            text = "func make(a ...string) error { return nil }\n"
+        if h.get("bare"):       # the declaration itself must not use a predeclared identifier
+            text = {"func": "func %s() {}\n", "var": "var %s = struct{}{}\n", "const": "const %s = \"c\"\n", "type": "type %s struct{}\n"}[h["kind"]] % n
         bodies[h["file"]].append(text)
     for f in pkg["funcs"]:
         if f["recv"] and any(t.get("tparams") for t in pkg["types"] if t["name"] == f["recv"][0]):
@@ -545,6 +574,10 @@ def render_package(pkg, pname):
             imps.append('"example.test/%s/probe"' % pname)
         if "alt." in text:
             imps.append('"example.test/%s/alt"' % pname)
+        if "conf." in text:
+            imps.append('"example.test/%s/conf"' % pname)
+        if i in dot_files:
+            imps.insert(0, '. "time"')
         if "mg." in text:
             imps.append('"github.com/magefile/mage/mg"')
         head = "//go:build mage\n\n"
@@ -558,6 +591,9 @@ def render_package(pkg, pname):
         files["mf_%d.go" % i] = head + text
     if any(t["kind"] == "fake" for t in pkg["types"]):
         files["alt/alt.go"] = "// Package alt has a type called Namespace that is not mg.Namespace.\npackage alt\n\ntype Namespace struct{}\n"
+    if any("conf." in t for t in files.values()):
+        files["conf/conf.go"] = ("// Package conf has types named like the ones mage supports.\npackage conf\n\n"
+                                 "type Duration int64\n\ntype Month int\n\ntype Context interface{}\n")
     return files
 
 
@@ -593,6 +629,12 @@ def oracle_valid(pkg, f):
         return False
     rs = [g["kind"] for g in f["res"] for _ in range(max(1, g["names"]))]
     return rs == [] or rs == ["error"]
+
+
+def oracle_ambiguous(pkg, f):
+    """a parameter written with the bare name of a dot-imported time type: semantically time.Duration,
+    textually not - the sentence does not decide whether it is a target (it must not break the build)"""
+    return any((not isinstance(g["ty"], str)) and g["ty"].get("dot") and g["ty"]["other"] == "Duration" for g in f["params"])
 
 
 def oracle_key(f):
@@ -703,6 +745,11 @@ def all_types(pkg):
         ts.append({"name": "local", "kind": "int"})
     if "Ctx" in text_other:
         ts.append({"name": "Ctx", "kind": "alias"})
+    tys = [g["ty"] for f in pkg["funcs"] for g in f["params"] if not isinstance(g["ty"], str)]
+    if any(t["other"] == "Duration" and not t.get("dot") for t in tys):
+        ts.append({"name": "Duration", "kind": "int"})
+    if any(t["other"] == "Context" for t in tys):
+        ts.append({"name": "Context", "kind": "struct"})
     ts += [{"name": h["name"], "kind": "struct"} for h in pkg["helpers"] if h["kind"] == "type"]
     return ts
 
